@@ -12,6 +12,7 @@
 -/
 import BlocV.Proofs.Lemmas.OpsCases
 import BlocV.Proofs.Lemmas.BuiltinCases
+import BlocV.Proofs.Lemmas.NoHazardProgram
 
 namespace BlocV.C01
 open BlocV
@@ -209,5 +210,146 @@ theorem int_of_decimal_no_hazard (b : Num.F64) : (Num.intOfDecimal b).isHazard =
 
 example : Num.intOfDecimal 0x7ff0000000000000 = .err Gen.EXC_RT_OUT_OF_RANGE := by decide
 example : Num.intOfDecimal 0xc3e0000000000000 = .ok (-9223372036854775808) := by decide
+
+
+/-! ### whole programs (Model/Interp.lean): statements, loops, blocks, calls, tables, members, `forall`, the error record
+
+The theorems below are about the value-level interpreter as a whole — `execList` = `Executable::run`, and every function it is
+mutually recursive with — not about single nodes. Helper lemmas: Proofs/Lemmas/NoHazardInterp.lean (the Hoare-style predicate
+`NH`, every built-in run IN the interpreter's monad), NoHazardMembers.lean, NoHazardCalls.lean, NoHazardState.lean (the invariant
+`WfSt`), NoHazardLoops.lean, NoHazardExec.lean (the mutual induction `nh_all`), NoHazardProgram.lean.
+
+Hypotheses, all of them facts the C++ guarantees by construction and that the model's types do not enforce:
+  * `WfSt s` — every value held by a variable / saved by `return` / kept as the private copy of a traversed temporary is
+    deep-well-formed (`okVal`: every table anywhere inside carries a table type, every tuple has as many items as its declaration),
+    every running `forall` points inside its table, iterator names on the control stack are distinct. True of the initial state
+    (`wf_init`) and PRESERVED (second conjunct of the theorems = `wf_preserved`).
+  * `lockL L prog` — the parser accepted the text while the names `L` were locked (`Parser::parse` refuses with CONST_VIOLATION
+    otherwise; `lockProgram` for a whole program), `SrcIn L s` — the table variables being traversed are among them.
+  * `litL prog` / `litProgram prog` — the literals of the program are well-formed values; `FuncsOk funcs` — the same two facts for
+    every function of the table (derived for `collectFuncs prog` in `run_no_hazard_partial`).
+What is NOT excluded: no construct of `Expr` / `Stmt` is — operators, all 53 built-in names of `evalBuiltin` plus `tab` / `tup`,
+members on tables / strings / bytes / tuples / nulls, `@N`, `error`, user functions with the recursion limit, `begin … when`,
+`raise`, `for` (the re-entry `cur + step` is computed without wrap-around), `while`, `forall` over a variable and over a temporary
+with write-through, `print`, `if`, `return` / `break` / `continue`; every fuel, every depth, every budget. -/
+
+/-- the hazards that count in the `_partial` theorems: every one except `signedOverflow` -/
+def notOverflow (h : Hazard) : Bool := h != .signedOverflow
+
+/-- the initial state of a run is well-formed -/
+theorem wf_init : NHI.WfSt {} := NHI.wfSt_init
+
+/-- **Built-ins inside the interpreter**: EVERY name `evalBuiltin` dispatches (the 23 of `evalBuiltin_no_hazard` and the 30 of the
+second table: num isnum bool isnull typeof sign floor ceil sqrt exp log log10 sin cos tan asin acos atan sinh cosh tanh round max min
+mod atan2 clamp pi ee phi), run in the interpreter's monad with ARBITRARY computations as argument thunks (each keeping an
+invariant `I` of the state, reaching no hazard that counts and returning deep-well-formed values): no hazard that counts, `I` kept,
+a deep-well-formed result. For `substr` / `subraw` the hazards that count must leave out `signedOverflow`. -/
+theorem builtins_in_interp_no_hazard (bad : Hazard → Bool) (I : St → Prop) (fmt : Num.F64 → Bytes) (name : String)
+    (hb : bad .signedOverflow = false ∨ (name ≠ "substr" ∧ name ≠ "subraw"))
+    (args : List (EvalM Val)) (h : NHI.NArgs bad I args) (r : EvalM Val)
+    (hr : evalBuiltin (m := EvalM) fmt name args = some r) : NHI.NH bad I NHI.okV r :=
+  NHI.evalBuiltin_nh hb fmt args h r hr
+
+/-- **`exec_no_hazard_partial`** — never a crash, for whole statement lists. For EVERY function table, lock set, depth, fuel,
+statement list and state satisfying the hypotheses above: the run does not end in a hazard other than `signedOverflow`, and the final
+state is well-formed again (`wf_preserved`). By mutual induction over eval / callFunc / evalArgs / execBlock / execList / exec /
+evalPrint / execIf and the three loop runners (`NHI.nh_all`).
+
+`_partial` because of ONE residual hazard, kept in the conclusion rather than excluded by a syntactic side condition: the signed index
+arithmetic of `substr` / `subraw` (`a + c`, `c - a` on `int64_t c = size()`), which the model reaches on a string / byte array of
+2^63 bytes or more. The full statement
+
+    theorem exec_no_hazard … : (execList funcs depth fuel prog s).1.isHazard = false ∧ WfSt (execList funcs depth fuel prog s).2
+
+is FALSE of the model: `Val.str` is an unbounded list, 63 doublings `s = s + s` build such a string within any budget ≥ 64, and then
+`substr(s, -1)` computes `sadd (-1) (Int64.ofNat (2^63))` = `.haz .signedOverflow`. It is not a defect of the library (no process
+holds 2^63 bytes: the doublings end in `std::bad_alloc` / `length_error` long before), and the witness cannot be evaluated
+(`decide +kernel` on a list of 2^63 elements) nor run. The invariant that would exclude it ("every string is shorter than 2^63") is
+not preserved by the model's `+`, `replace`, `concat`, `b64enc`, which is why it is not part of `WfSt`. -/
+theorem exec_no_hazard_partial (funcs : List Func) (hF : NHI.FuncsOk funcs) (L : List String) (depth fuel : Nat) (prog : List Stmt) (s : St)
+    (hl : lockL L prog = true) (hv : NHI.litL prog = true) (hs : NHI.WfSt s) (hsrc : NHI.SrcIn L s) :
+    (∀ h, (execList funcs depth fuel prog s).1 = .haz h → h = .signedOverflow) ∧
+    NHI.WfSt (execList funcs depth fuel prog s).2 := by
+  have h := (NHI.nh_all (bad := notOverflow) rfl funcs hF fuel).2.2.2.2.1 L depth prog hl hv s ⟨hs, hsrc⟩
+  refine ⟨fun x e => ?_, h.2.1.1⟩
+  have := h.1 x e
+  simpa [notOverflow] using this
+
+/-- the same for one expression: its value, when there is one, is deep-well-formed -/
+theorem eval_no_hazard_partial (funcs : List Func) (hF : NHI.FuncsOk funcs) (L : List String) (depth fuel : Nat) (e : Expr) (s : St)
+    (hl : lockE L e = true) (hv : NHI.litE e = true) (hs : NHI.WfSt s) (hsrc : NHI.SrcIn L s) :
+    (∀ h, (eval funcs depth fuel e s).1 = .haz h → h = .signedOverflow) ∧
+    NHI.WfSt (eval funcs depth fuel e s).2 ∧ ∀ v, (eval funcs depth fuel e s).1 = .ok v → NHI.okVal v = true := by
+  have h := (NHI.nh_all (bad := notOverflow) rfl funcs hF fuel).1 L depth e hl hv s ⟨hs, hsrc⟩
+  refine ⟨fun x e => ?_, h.2.1.1, h.2.2⟩
+  have := h.1 x e
+  simpa [notOverflow] using this
+
+-- the hypotheses are satisfiable by a program that fills a table, traverses it writing through the iterator, calls members:
+example : lockL [] [.letS "t" (.call "tab" [.lit (.int 2), .lit (.int 7)]),
+    .forallS "e" (.var "t") .auto [.letS "e" (.bin .add (.var "e") (.lit (.int 1)))],
+    .doS (.member .concat (.var "t") [.lit (.int 9)])] = true := by decide
+example : NHI.litL [.letS "t" (.call "tab" [.lit (.int 2), .lit (.int 7)]),
+    .forallS "e" (.var "t") .auto [.letS "e" (.bin .add (.var "e") (.lit (.int 1)))],
+    .doS (.member .concat (.var "t") [.lit (.int 9)])] = true := by
+  simp [NHI.litL, NHI.litS, NHI.litE, NHI.litEs]
+example : NHI.FuncsOk [] ∧ NHI.SrcIn [] {} := ⟨fun _ h => (by cases h), fun _ h => (by cases h)⟩
+/-- The lock hypothesis cannot be dropped: a body that deletes from the table it traverses — which `Parser::parse` refuses with
+CONST_VIOLATION (`lockProgram = false`) — leaves the iterator pointing past the end, and reading it is the model's hazard `oob`.
+Literals are fine and the state is the initial one, so `lockProgram` is the only hypothesis of `run_no_hazard_partial` that fails.
+(A test on one program, by kernel evaluation.) -/
+theorem lock_hypothesis_needed :
+    let prog : List Stmt := [.letS "t" (.call "tab" [.lit (.int 2), .lit (.int 7)]),
+      .forallS "e" (.var "t") .auto [.doS (.member .delete (.var "t") [.lit (.int 0)]),
+        .doS (.member .delete (.var "t") [.lit (.int 0)]), .doS (.var "e")]]
+    lockProgram prog = false ∧ NHI.litProgram prog = true ∧
+    (match (runProgram 20 prog).outcome with | .haz .oob => true | _ => false) = true := by decide +kernel
+
+/-- **`run_no_hazard_partial`** — the same for `runProgram` = `Parser::parse` + `Executable::run` of a WHOLE program: function
+table collected from the program, symbols registered as typed nulls, top-level statement list run at depth 0. The only hypotheses
+left are that the parser accepted the program under the lock discipline (`lockProgram`), that its literals are well-formed
+(`litProgram`) and that the state the run starts from is well-formed with no `forall` running. -/
+theorem run_no_hazard_partial (fuel : Nat) (prog : List Stmt) (init : St)
+    (hl : lockProgram prog = true) (hv : NHI.litProgram prog = true) (hs : NHI.WfSt init) (hi : init.iters = []) :
+    (∀ h, (runProgram fuel prog init).outcome = .haz h → h = .signedOverflow) ∧ NHI.WfSt (runProgram fuel prog init).st := by
+  have key : ∀ s0 : St, NHI.Inv [] s0 →
+      (∀ h, (match execList (collectFuncs prog) 0 fuel prog s0 with
+          | (.ok _, s) => ({ outcome := .ok s.returned, st := s } : RunResult)
+          | (.err c a, s) => { outcome := .err c a, st := s }
+          | (.haz h, s) => { outcome := .haz h, st := s }
+          | (.unmodelled, s) => { outcome := .unmodelled, st := s }).outcome = .haz h → h = .signedOverflow) ∧
+      NHI.WfSt (match execList (collectFuncs prog) 0 fuel prog s0 with
+          | (.ok _, s) => ({ outcome := .ok s.returned, st := s } : RunResult)
+          | (.err c a, s) => { outcome := .err c a, st := s }
+          | (.haz h, s) => { outcome := .haz h, st := s }
+          | (.unmodelled, s) => { outcome := .unmodelled, st := s }).st := by
+    intro s0 hs0
+    have h := (NHI.nh_all (bad := notOverflow) rfl (collectFuncs prog) (NHI.funcsOk_collect prog hl hv) fuel).2.2.2.2.1 [] 0 prog
+      (NHI.lockL_of_program prog hl) (NHI.litL_of_program prog hv) s0 hs0
+    revert h
+    generalize execList (collectFuncs prog) 0 fuel prog s0 = r
+    intro h
+    obtain ⟨r1, s'⟩ := r
+    cases r1 with
+    | haz x =>
+      refine ⟨fun y e => ?_, h.2.1.1⟩
+      simp only [Res.haz.injEq] at e
+      subst e
+      have := h.1 x rfl
+      simpa [notOverflow] using this
+    | ok _ => exact ⟨fun y e => (by cases e), h.2.1.1⟩
+    | err _ _ => exact ⟨fun y e => (by cases e), h.2.1.1⟩
+    | unmodelled => exact ⟨fun y e => (by cases e), h.2.1.1⟩
+  unfold runProgram
+  dsimp only
+  refine key _ ⟨⟨?_, hs.ret, hs.priv, ?_, hs.nodup⟩, ?_⟩
+  · exact NHI.okVal_declVars _ _ hs.vars
+  · intro b hb; rw [hi] at hb; cases hb
+  · intro b hb; rw [hi] at hb; cases hb
+
+example : lockProgram [.funcS "f" [("x", Ty.int)] Ty.int [.returnS (some (.bin .mul (.var "x") (.lit (.int 2))))] [],
+    .printS [.fcall "f" [.lit (.int 21)]]] = true ∧
+    NHI.litProgram [.funcS "f" [("x", Ty.int)] Ty.int [.returnS (some (.bin .mul (.var "x") (.lit (.int 2))))] [],
+    .printS [.fcall "f" [.lit (.int 21)]]] = true := ⟨by decide, by simp [NHI.litProgram, NHI.litL, NHI.litS, NHI.litE, NHI.litEs, NHI.litCatches]⟩
 
 end BlocV.C01
